@@ -169,7 +169,11 @@ def st_ds(draw, need_img=False, need_fl=False, need_trace=False, clean=False):
 @st.composite
 def st_op(draw, pool):
     return {"op": draw(st.sampled_from(pool)), "a": draw(st.integers(0, 63)),
-            "mask": draw(st.lists(st.booleans(), min_size=1, max_size=12))}
+            "mask": draw(st.one_of(
+                st.lists(st.booleans(), min_size=1, max_size=12),
+                st.lists(st.booleans(), min_size=1, max_size=12),
+                st.sampled_from([["K", 11], ["K", 21], ["K", 31], ["K", 10],
+                                 ["K", 20], ["K", 12]])))}
 
 
 @st.composite
@@ -338,6 +342,20 @@ def enumerate_cases(tier):
             out.append(_case(mini, mode="defect",
                              defects=[{"k": "nonpos", "a": a, "b": b}]))
     out.append(_case(full, mode="defect", defects=[{"k": "zmd", "a": 0, "b": 0}]))
+    # exports whose selection is one event more than 1/2/3 export chunks (chunk of
+    # 10 events with CHUNK_SIZE_BYTES=100) - the remainder branch of the stack
+    # assembler - through export_filtered, child_export and split
+    for n_, k_ in ((21, 11), (31, 21), (32, 31), (22, 20)):
+        big = dict(_template(), n=n_, comp=[n_], reopen=[False])
+        for opname in ("export_filtered", "child_export", "export_basins"):
+            c_ = _case(big, mode="closure", ops=[(opname, 1)])
+            c_["chunk"] = 100
+            c_["ops"][0]["mask"] = ["K", k_]
+            out.append(c_)
+        c_ = _case(dict(_template(), n=n_, comp=[n_], reopen=[False]), mode="closure",
+                   ops=[("split", k_)])
+        c_["chunk"] = 100
+        out.append(c_)
     return out
 
 
@@ -587,6 +605,13 @@ def boot_is_dclab_exc(exc):
 
 
 def _mask(bits, n):
+    if bits and bits[0] == "K":
+        # keep exactly K evenly spread events (K relative to the export chunk of
+        # 10 events: one more than one/two/three chunks, or exactly full chunks)
+        k = max(1, min(n, int(bits[1])))
+        m = np.zeros(n, dtype=bool)
+        m[np.round(np.linspace(0, n - 1, k)).astype(int)] = True
+        return m
     m = np.array([bits[i % len(bits)] for i in range(n)], dtype=bool)
     if not m.any():
         m[n // 2] = True
@@ -636,7 +661,7 @@ def _apply_op(op, cur, d, k, spec, rec):
             ch = dclab.new_dataset(ds)
             filt = bool(op["a"] % 2)
             if filt:
-                ch.filter.manual[:] = _mask(op["mask"][::-1], len(ch))
+                ch.filter.manual[:] = _mask(op["mask"] if op["mask"][0] == "K" else op["mask"][::-1], len(ch))
                 ch.apply_filter()
             ch.export.hdf5(out, features=ds.features_innate, filtered=filt,
                            basins=bool(op["a"] % 4 >= 2))
